@@ -66,6 +66,29 @@ func scenConvert(rep *Report, tier string, seed int64) {
 	defer m.Close()
 	saved := config.PIP10AverageActivation
 	defer func() { config.PIP10AverageActivation = saved }()
+	// the schedule the binary ships with (everything below runs on a moved activation height): a
+	// conversion whose source average is below its spot rate is priced with the spot rate right
+	// below height 295190 and with the average from there on
+	{
+		config.PIP10AverageActivation = mainnetActs.PIP10
+		const pinned = 295190
+		for _, h := range []uint32{pinned - 1, pinned, pinned + 1, pinned - 720, pinned + 720} {
+			got, err := conversions.Convert(h, 1e8, 2e8, 1e8, 1e8, 1e8)
+			want := int64(2e8)
+			if h >= pinned {
+				want = 1e8
+			}
+			rep.Count("convert:shipped-schedule")
+			if err != nil || got != want {
+				path := WriteReplay(rep.Property, "convert-schedule", Replay{Property: rep.Property, Scenario: "convert", Seed: seed,
+					What:  fmt.Sprintf("with the shipped constants Convert at height %d prices 1 unit (spot 2, average 1, destination 1) at %d, expected %d: averaging applies from height %d on", h, got, want, pinned),
+					Extra: map[string]interface{}{"height": h, "PIP10AverageActivation": mainnetActs.PIP10, "error": fmt.Sprint(err)}})
+				rep.Violate("convert:shipped-schedule", fmt.Sprintf("height %d: got %d (%v), expected %d (PIP10AverageActivation = %d)", h, got, err, want, mainnetActs.PIP10), path)
+				break
+			}
+		}
+		config.PIP10AverageActivation = saved
+	}
 	for i := 0; i < n; i++ {
 		pip := uint32(r.Intn(3) * 100)
 		h := uint32(r.Intn(300))
